@@ -255,3 +255,43 @@ def pyRoundInt (x : Float) : Option Int :=
   (toRat? x).map roundHalfEvenInt
 
 end PicoSVG.F64
+
+namespace PicoSVG.F64
+
+/-- floor of the square root of a natural number (Newton iteration) -/
+def natSqrt (n : Nat) : Nat :=
+  if n < 2 then n else
+  let rec go (x : Nat) (fuel : Nat) : Nat :=
+    match fuel with
+    | 0 => x
+    | fuel + 1 =>
+      let y := (x + n / x) / 2
+      if y ≥ x then x else go y fuel
+  go (1 <<< ((Nat.log2 n) / 2 + 1)) 200
+
+/-- correctly rounded sqrt of a non-negative rational, via exact integer arithmetic:
+    compute floor(sqrt(q · 4^k)) with > 60 significant bits and round once (sticky bit) -/
+def sqrtRat (q : Rat) : Float :=
+  if q.num ≤ 0 then 0.0 else
+  let n := q.num.natAbs
+  let d := q.den
+  -- choose an even shift so that n·2^s / d has ≥ 2·70 bits
+  let bits : Int := (Nat.log2 n : Int) - (Nat.log2 d : Int)
+  let s0 : Int := 140 - bits
+  let s : Int := if s0 % 2 == 0 then s0 else s0 + 1
+  let scaled : Nat := if s ≥ 0 then (n <<< s.toNat) / d else n / (d <<< (-s).toNat)
+  let exact : Bool := if s ≥ 0 then (n <<< s.toNat) % d == 0 else n % (d <<< (-s).toNat) == 0
+  let r := natSqrt scaled
+  let sticky : Bool := !(exact && r * r == scaled)
+  -- value ≈ r · 2^(-s/2); add a sticky half-unit so that the single rounding is correct
+  let num : Nat := 2 * r + (if sticky then 1 else 0)
+  let e : Int := -(s / 2) - 1
+  ofRat (if e ≥ 0 then ((num <<< e.toNat : Nat) : Rat) else mkRat num (1 <<< (-e).toNat))
+
+/-- `math.hypot(x, y)` (CPython ≥ 3.10 is correctly rounded for two arguments in practice) -/
+def hypot (x y : Float) : Float :=
+  match toRat? x, toRat? y with
+  | some a, some b => sqrtRat (a * a + b * b)
+  | _, _ => if x.isNaN || y.isNaN then nan else posInf
+
+end PicoSVG.F64
